@@ -36,6 +36,7 @@ FIN = "MC_Fin.tla"
 IMP = "MC_Imports.tla"
 QUICK = [(CORE, "core_q"), (CORE, "policy_q"), (CORE, "forms_q"), (CORE, "redir_q"), (CORE, "roots_q"), (CORE, "tdep_q"), (CORE, "optdyn_q"), (CORE, "optskip_q"), (CORE, "optboth_q"), (CHAIN, "chain_q"), (NPM, "npm_q"), (FIN, "fin_q"), (IMP, "imports_q")]
 THOROUGH = QUICK + [(FIN, "fin_t"), (CORE, "core_t"), (CORE, "redir_t"), (CORE, "roots_t"), (CHAIN, "chain_t"), (NPM, "npm_t")]
+NO_OPT = [x for x in THOROUGH if not x[1].startswith("opt")]
 def _q(*names):
     return [(CHAIN if n.startswith("chain") else NPM if n.startswith("npm") else FIN if n.startswith("fin") else IMP if n.startswith("imports") else CORE, n) for n in names]
 # quick tier: the instances that matter for the property; thorough tier: everything
@@ -47,7 +48,10 @@ PROFILES = {
               "C17": _q("core_q", "forms_q", "redir_q", "tdep_q", "npm_q", "fin_q", "imports_q"),
               "C18": _q("core_q", "redir_q", "roots_q", "tdep_q", "fin_q", "imports_q"),
               "C19": _q("core_q", "roots_q", "redir_q", "hist_q", "fin_q", "imports_q")},
-    "thorough": {"default": THOROUGH, "C19": THOROUGH + [(CORE, "hist_q"), (CORE, "hist_t")]},
+    # the build-option profiles belong to C01 / C03 (which are quantified over build options); the properties about
+    # queries on a built graph are stated for the default options
+    "thorough": {"default": THOROUGH, "C19": NO_OPT + [(CORE, "hist_q"), (CORE, "hist_t")],
+                 "C02": NO_OPT, "C14": NO_OPT, "C15": NO_OPT, "C17": NO_OPT, "C18": NO_OPT},
 }
 TRACE_BUDGET = {"quick": 120_000, "thorough": 1_500_000}
 
